@@ -75,13 +75,13 @@ SceneClause(c) ==
     LET cap == SceneCapTable[c.fmt]
         o   == c.obs
         g   == c.cls
-    IN IF \E k \in DOMAIN g.kinds : g.kinds[k] \notin cap.kinds THEN "not_applicable"
+    IN IF \E k \in DOMAIN g.kinds : g.kinds[k] \notin (cap.kinds \cup cap.tolerates) THEN "not_applicable"
        ELSE IF c.exc # "" THEN "round_trip_raises"
        ELSE IF ~c.src_ok THEN "ExportLeavesSourceUnchanged"
        ELSE IF o.nout # o.nin \/ ~o.bag THEN "instance_placement"
        ELSE IF cap.orient /\ ~o.bago THEN "triangle_vertex_order"
-       ELSE IF InSeq("cloud", g.kinds) /\ ~o.cloud THEN "cloud_placement"
-       ELSE IF InSeq("path", g.kinds) /\ ~o.path THEN "path_placement"
+       ELSE IF InSeq("cloud", g.kinds) /\ "cloud" \in cap.kinds /\ ~o.cloud THEN "cloud_placement"
+       ELSE IF InSeq("path", g.kinds) /\ "path" \in cap.kinds /\ ~o.path THEN "path_placement"
        ELSE "ok"
 
 Clause(c) ==
